@@ -154,6 +154,7 @@ def parse(text):
                 f.cleanup.add(bm.group(1))
         if name not in funcs:
             funcs[name] = f
+    canonicalise(funcs)
     return funcs
 
 
@@ -166,3 +167,27 @@ def find_blocks(f, pattern):
 def successors(f, bb):
     last = f.blocks[bb][-1] if f.blocks[bb] else ''
     return re.findall(r'\b(bb\d+)\b', last.split('->', 1)[1]) if '->' in last else []
+
+
+def canonicalise(funcs):
+    """Parameter names are source identifiers: the obligations address parameters by the names of the pinned tree, so a
+    renamed parameter (same position, same arity) is given its canonical name again.  A permutation of the known names is
+    left alone (a reordered signature keeps its meaning by name)."""
+    import json
+    try:
+        table = json.load(open(os.path.join(os.path.dirname(os.path.abspath(__file__)), 'canon_params.json')))
+    except Exception:  # noqa: BLE001
+        return
+    for n, f in funcs.items():
+        key = re.sub(r'<impl at [^>]*>', '<impl>', n)
+        canon = table.get(key)
+        if not canon or len(canon) != len(f.params):
+            continue
+        actual = [f.debug.get(l, l) for l, t in f.params]
+        if set(actual) == set(canon):
+            continue
+        for (l, t), a, c in zip(f.params, actual, canon):
+            if a != c and a not in canon and c not in actual and c not in f.debug_of:
+                f.debug[l] = c
+                f.debug_of.pop(a, None)
+                f.debug_of[c] = l
